@@ -132,3 +132,51 @@ package ast_java
 //@ ensures methodCalls[len(methodCalls) - 1].FunctionName == GetText(Kid(ctx, 0))
 //@ ensures methodCalls[len(methodCalls) - 1].Position.StartLine == GetLine(GetStart(ctx)) && methodCalls[len(methodCalls) - 1].Position.StartLinePosition == GetColumn(GetStart(ctx)) &&
 //@    methodCalls[len(methodCalls) - 1].Position.StopLinePosition == GetColumn(GetStart(ctx)) + len(GetText(Kid(ctx, 0)))
+
+// ---- C02 / C07: the tables receiver resolution reads (imports, parameter / field / local types) are filled by these
+// callbacks, one entry per declaration, under the declared name
+
+//@ method JavaFullListener.EnterImportDeclaration
+//@ modifies imports, *currentNode
+//@ ensures len(imports) == old(len(imports)) + 1 && Extends(imports, old(imports), 1) && imports[len(imports) - 1] == GetText(Child(ctx, "qualifiedName"))
+//@ ensures len((*currentNode).Imports) == old(len((*currentNode).Imports)) + 1 && Extends((*currentNode).Imports, old((*currentNode).Imports), 1) && (*currentNode).Imports[len((*currentNode).Imports) - 1].Source == GetText(Child(ctx, "qualifiedName"))
+//@ ensures (*currentNode).NodeName == old((*currentNode).NodeName) && (*currentNode).Package == old((*currentNode).Package) && (*currentNode).Functions == old((*currentNode).Functions)
+
+//@ method JavaFullListener.EnterFormalParameter
+//@ modifies formalParameters
+//@ ensures formalParameters[GetText(Child(ctx, "variableDeclaratorId"))] == GetText(Child(ctx, "typeType")) && (GetText(Child(ctx, "variableDeclaratorId")) in formalParameters)
+//@ ensures forall k string :: {formalParameters[k]} k != GetText(Child(ctx, "variableDeclaratorId")) ==> formalParameters[k] == old(formalParameters[k]) && ((k in formalParameters) <==> (k in old(formalParameters)))
+
+// a local variable is recorded under its name with its declared type, whatever modifiers (final, annotations) precede
+//@ spec LocalName(ctx Node) string := GetText(Kid(Kid(Child(ctx, "variableDeclarators"), 0), 0))
+//@ method JavaFullListener.EnterLocalVariableDeclaration
+//@ modifies localVars
+//@ ensures localVars[LocalName(ctx)] == GetText(Child(ctx, "typeType")) && (LocalName(ctx) in localVars)
+//@ ensures forall k string :: {localVars[k]} k != LocalName(ctx) ==> localVars[k] == old(localVars[k]) && ((k in localVars) <==> (k in old(localVars)))
+
+
+// ---- C01 / C02: bookkeeping of the method being read
+
+// the table key of a method: package.class.name:line (an anonymous entry takes the name of the enclosing method)
+//@ func getMethodMapName
+//@ ensures method.Name != "" ==> result == MKey(currentPkg, currentClz, method.Name, method.Position.StartLine)
+
+// outside an anonymous class, a method that starts being read becomes the current method, is queued once and entered
+// in the method table under its key; inside one it only goes to the creator table
+//@ func updateMethod
+//@ requires method != nil
+//@ modifies currentMethod, methodQueue, methodMap, creatorMethodMap
+//@ ensures currentType != "CreatorClass" ==> currentMethod == *method && len(methodQueue) == old(len(methodQueue)) + 1 && Extends(methodQueue, old(methodQueue), 1) && methodQueue[len(methodQueue) - 1] == *method
+//@ ensures currentType != "CreatorClass" && (*method).Name != "" ==> methodMap[MKey(currentPkg, currentClz, (*method).Name, (*method).Position.StartLine)] == *method
+//@ ensures currentType != "CreatorClass" ==> creatorMethodMap == old(creatorMethodMap)
+//@ ensures currentType == "CreatorClass" ==> currentMethod == old(currentMethod) && methodQueue == old(methodQueue) && methodMap == old(methodMap)
+
+// the end of a method or constructor leaves an empty current method (nothing of it leaks into the next one)
+//@ func exitMethod
+//@ modifies currentMethod
+//@ ensures currentType != "CreatorClass" ==> currentMethod.Name == "" && len(currentMethod.Annotations) == 0 && len(currentMethod.FunctionCalls) == 0
+//@ ensures currentType == "CreatorClass" ==> currentMethod == old(currentMethod)
+//@ method JavaFullListener.ExitConstructorDeclaration
+//@ modifies currentMethod, isOverrideMethod
+//@ ensures currentMethod.Name == "" && len(currentMethod.Annotations) == 0 && len(currentMethod.FunctionCalls) == 0 && !isOverrideMethod
+
